@@ -145,6 +145,35 @@ def closure_bodies(fx, call):
     return out
 
 
+def own_closures(fx, call):
+    """The closure bodies passed to THIS call as arguments (call.closures also lists closures of the receiver chain, in the order of
+    the callee's generic arguments, not of nesting)."""
+    b = call.body
+    out = []
+    for a in call.args:
+        if not (isinstance(a, dict) and ("mv" in a or "cp" in a)):
+            continue
+        l = pl_local(op_place(a))
+        for _ in range(4):
+            ds = [d for d in b.def_sites(l) if isinstance(d[2], int)]
+            if len(ds) != 1 or not isinstance(ds[0][3], dict):
+                break
+            rv = ds[0][3]
+            if rv["k"] == "agg" and rv.get("ak") == "closure" and rv.get("def") is not None:
+                out.extend(fx.by_q.get(b.crate.q[rv["def"]], []))
+                break
+            if rv["k"] in ("use", "cast") and isinstance(rv.get("op"), dict) and ("mv" in rv["op"] or "cp" in rv["op"]):
+                l = pl_local(op_place(rv["op"]))
+            elif rv["k"] == "ref":
+                l = pl_local(rv["place"])
+            else:
+                break
+    if not out:
+        # closures given as fn items / ZST closures without a materialised aggregate: fall back to the listed ones
+        out = closure_bodies(fx, call)[-1:]
+    return out
+
+
 def reads_field(body, field, adt_suffix=None):
     """Does the body (or its closures) read a place with projection `.field@...adt`?"""
     pat = "." + field + "@"
@@ -612,7 +641,7 @@ def first_match_scan(fx, body):
     backwards = bool(tree_calls(body, r"rfind|rposition|::rev$|Iterator>?::last$|DoubleEndedIterator"))
     for c in body.calls_to(r"Iterator>?::find$"):
         if re.match(r"^(new|Range::Range|RangeInclusive)\(", expr(body, c.args[0])) or "Range" in (c.targs[0] if c.targs else ""):
-            cbs = closure_bodies(fx, c)[-1:]
+            cbs = own_closures(fx, c)
             return {"form": "find", "test_calls": [x for cb in cbs for x in cb.calls()], "first": not backwards}
     for c in body.calls_to(r"Iterator>?::next$"):
         it = expr(body, c.args[0])
@@ -684,7 +713,7 @@ def enclosing_conditions(fx, body, bb):
         for f in par.calls_to(r"Iterator>?::(filter|take_while|skip_while)$", r"Option(<[^>]*>)?::filter$"):
             d = expr(par, f.dest)
             if d and d in recv:
-                for cb in closure_bodies(fx, f)[-1:]:
+                for cb in own_closures(fx, f):
                     r = expr(cb, 0)
                     out.append(("F:" + r[4:-1]) if r.startswith("Not(") else ("T:" + r))
         cur = par
@@ -715,3 +744,23 @@ def true_only_if_exists(fx, body, src_rx, test_rx):
         if trues and not others and all(tnames & set(guard_strs(body, d[0])) for d in trues):
             return True
     return False
+
+
+def result_defs(body):
+    """Definition sites of the function's result, looking through `let r; match .. { A => r = a, .. }; r`: a definition of the
+    return place that merely copies a local with several definitions is replaced by that local's definitions."""
+    out = []
+    seen = set()
+    work = list(body.def_sites(0))
+    while work:
+        d = work.pop(0)
+        rv = d[3]
+        if isinstance(rv, dict) and rv["k"] == "use" and isinstance(rv["op"], dict) and ("cp" in rv["op"] or "mv" in rv["op"]) and not pl_proj(op_place(rv["op"])):
+            l = pl_local(op_place(rv["op"]))
+            nd = [x for x in body.def_sites(l) if isinstance(x[2], int)]
+            if l not in seen and l > body.argc and len(nd) >= 2:
+                seen.add(l)
+                work.extend(nd)
+                continue
+        out.append(d)
+    return out
